@@ -21,13 +21,13 @@ _REAL_SLEEP = _time.sleep
 
 def install(world: World) -> Dict[str, Any]:
     def sleep(delay: float) -> None:
-        world.rec('client', 'sleep', delay=delay, kind='blocking')
+        world.rec('client', 'sleep', delay=delay, mode='blocking')
         world.probe('sleep.blocking')
         if isinstance(delay, (int, float)) and delay > 0:
             world.now += delay
 
     async def asleep(delay: float, result: Any = None) -> Any:
-        world.rec('client', 'sleep', delay=delay, kind='async')
+        world.rec('client', 'sleep', delay=delay, mode='async')
         world.probe('sleep.async')
         return await asyncio.sleep(delay, result)
 
